@@ -49,7 +49,12 @@ class StrInterp:
                 return RL.literal(self.alpha, e.value)
             return NONSTR
         if isinstance(e, ast.Name):
-            return env.get(e.id)
+            v = env.get(e.id)
+            if isinstance(v, tuple):
+                # one half of a partition used on its own: not modelled
+                self.unknown_ops.append((e, 'a part of str.partition used on its own'))
+                return RL.sigma_star(self.alpha)
+            return v
         if isinstance(e, ast.Call) and isinstance(e.func, ast.Attribute):
             base = self.lang(e.func.value, env)
             m = e.func.attr
@@ -87,6 +92,31 @@ class StrInterp:
                 self.unknown_ops.append((e, 'slice %s is not modelled' % norm(e.slice)))
                 return RL.sigma_star(self.alpha)
             return None
+        if isinstance(e, ast.BinOp) and isinstance(e.op, ast.Add):
+            # head + K + tail of one partition == x.replace(c, K, 1) when every word of x contains c
+            parts = []
+
+            def flat(x):
+                if isinstance(x, ast.BinOp) and isinstance(x.op, ast.Add):
+                    flat(x.left)
+                    flat(x.right)
+                else:
+                    parts.append(x)
+            flat(e)
+            if len(parts) == 3 and isinstance(parts[0], ast.Name) and isinstance(parts[2], ast.Name) \
+                    and isinstance(parts[1], ast.Constant) and isinstance(parts[1].value, str):
+                a, b = env.get(parts[0].id), env.get(parts[2].id)
+                if isinstance(a, tuple) and isinstance(b, tuple) and a[0] == 'partition-head' and b[0] == 'partition-tail' \
+                        and a[3] == b[3]:
+                    base, sep = a[1], a[2]
+                    without = RL.intersect(base, RL.complement(RL.contains(self.alpha, sep)))
+                    if without.is_empty():
+                        try:
+                            return RL.substitute_once(base, sep, parts[1].value)
+                        except AnalysisError:
+                            pass
+                    self.unknown_ops.append((e, 'partition / recombination on a language where the separator may be missing'))
+                    return RL.sigma_star(self.alpha)
         if isinstance(e, ast.BinOp) and isinstance(e.op, (ast.Add, ast.Mod)):
             l = self.lang(e.left, env)
             if isinstance(l, RL.DFA):
@@ -239,6 +269,22 @@ class StrInterp:
         return [out]
 
     def stmt(self, st, env):
+        if isinstance(st, ast.Assign) and len(st.targets) == 1 and isinstance(st.targets[0], ast.Tuple) \
+                and len(st.targets[0].elts) == 3 and all(isinstance(x, ast.Name) for x in st.targets[0].elts) \
+                and isinstance(st.value, ast.Call) and isinstance(st.value.func, ast.Attribute) \
+                and st.value.func.attr == 'partition' and len(st.value.args) == 1:
+            # head, sep, tail = x.partition(c): remembered so that head + K + tail can be read as x.replace(c, K, 1)
+            base = self.lang(st.value.func.value, env)
+            sep = A.const_value(st.value.args[0])
+            env = dict(env)
+            h, m, t = [x.id for x in st.targets[0].elts]
+            if isinstance(base, RL.DFA) and isinstance(sep, str) and len(sep) == 1:
+                env[h] = ('partition-head', base, sep, id(st))
+                env[t] = ('partition-tail', base, sep, id(st))
+                env[m] = None
+            else:
+                env[h] = env[m] = env[t] = None
+            return [env]
         if isinstance(st, ast.Assign):
             self.conversions(st.value, env)
             v = self.lang(st.value, env)
